@@ -2,6 +2,9 @@
 # Generates /verif/MANIFEST.json from scripts/manifest_src.json (one source of truth for the per-check texts).
 import json, subprocess, sys
 src = json.load(open('/verif/scripts/manifest_src.json'))
+import glob, os
+for f in sorted(glob.glob('/verif/scripts/manifest.d/C*.json')):
+    src['checks'][os.path.basename(f)[:-5]] = json.load(open(f))
 props = [json.loads(l) for l in open('/verif/properties.jsonl')]
 ids = [p['id'] for p in props]
 checks = []
